@@ -5,13 +5,13 @@ Require Import Tinode.Pure.PushPreviewC13.
 
 Lemma unit_width_pos : forall u, 1 <= unit_width_c13 u.
 Proof.
-  intros [cp|]; cbn [unit_width_c13]; [|lia]. unfold rune_width_c13.
+  intros [cp|b]; cbn [unit_width_c13]; [|lia]. unfold rune_width_c13.
   destruct (cp <? 128)%N; [lia|]. destruct (cp <? 2048)%N; [lia|]. destruct (cp <? 65536)%N; lia.
 Qed.
 
 Lemma unit_width_le4 : forall u, unit_width_c13 u <= 4.
 Proof.
-  intros [cp|]; cbn [unit_width_c13]; [|lia]. unfold rune_width_c13.
+  intros [cp|b]; cbn [unit_width_c13]; [|lia]. unfold rune_width_c13.
   destruct (cp <? 128)%N; [lia|]. destruct (cp <? 2048)%N; [lia|]. destruct (cp <? 65536)%N; lia.
 Qed.
 
@@ -30,8 +30,8 @@ Qed.
 
 (* exact description of the result of the code as it is *)
 Lemma trim_spec : forall s,
-  (length (runes_c13 s) <= max_payload_c13 /\ trim_c13 true s = POk (runes_c13 s)) \/
-  (max_payload_c13 < length (runes_c13 s) /\ trim_c13 true s = POk (firstn max_payload_c13 (runes_c13 s) ++ [ellipsis_c13])).
+  (length (runes_c13 s) <= max_payload_c13 /\ trim_c13 true s = POk s) \/
+  (max_payload_c13 < length (runes_c13 s) /\ trim_c13 true s = POk (map UValid (firstn max_payload_c13 (runes_c13 s)) ++ [UValid ellipsis_c13])).
 Proof.
   intros s. unfold trim_c13. cbn [negb orb].
   destruct (max_payload_c13 <? byte_len_c13 s) eqn:Hb.
@@ -49,7 +49,7 @@ Proof. intros s b l. destruct (trim_spec s) as [[_ ->]|[_ ->]]; discriminate. Qe
 (* the content is a prefix of the text of at most 128 runes, followed by the ellipsis exactly when runes were dropped *)
 Lemma trim_prefix : forall s, exists p,
   length p <= max_payload_c13 /\ p = firstn (length p) (runes_c13 s) /\
-  (trim_c13 true s = POk p /\ p = runes_c13 s \/ trim_c13 true s = POk (p ++ [ellipsis_c13]) /\ length p < length (runes_c13 s)).
+  (trim_c13 true s = POk s /\ p = runes_c13 s \/ trim_c13 true s = POk (map UValid p ++ [UValid ellipsis_c13]) /\ length p < length (runes_c13 s)).
 Proof.
   intros s. destruct (trim_spec s) as [[Hl ->]|[Hl ->]].
   - exists (runes_c13 s). split; [exact Hl|]. split; [symmetry; apply firstn_all|]. left. split; reflexivity.
